@@ -317,14 +317,26 @@ namespace ratio
                     {
                         std::unordered_set<smt::var_value *> alwd_vals = scp.get_core().get_ov_theory().value(ae->ev); // the allowed values..
                         std::vector<smt::lit> not_alwd_vals;                                                           // the not allowed values..
+                        std::vector<smt::lit> tgt_lits;                                                                // the values of the target type (and their literals)..
+                        std::vector<item *> tgt_vals;
                         for (const auto &ev : alwd_vals)
                             if (!tt.is_assignable_from(static_cast<const item *>(ev)->get_type())) // the target type is not a superclass of the value..
                                 not_alwd_vals.emplace_back(!scp.get_core().get_ov_theory().allows(ae->ev, *ev));
+                            else
+                            {
+                                tgt_lits.emplace_back(scp.get_core().get_ov_theory().allows(ae->ev, *ev));
+                                tgt_vals.emplace_back(static_cast<item *>(ev));
+                            }
                         if (alwd_vals.size() == not_alwd_vals.size()) // none of the values is allowed..
                             throw inconsistency_exception();
                         else // we inhibit the not allowed values..
                             scp.get_core().assert_facts(not_alwd_vals);
-                        assgnments.emplace(id_tkn.id, e); // the argument, restricted to the values of the target type, is what the parameter stands for..
+                        // the argument, restricted to the values of the target type, is what the parameter stands for: an object of the target
+                        // type (whose fields the rule may access) which takes a value exactly when the argument does..
+                        if (tgt_vals.size() == 1)
+                            assgnments.emplace(id_tkn.id, expr(tgt_vals.front()));
+                        else
+                            assgnments.emplace(id_tkn.id, scp.get_core().new_enum(const_cast<type &>(tt), tgt_lits, tgt_vals));
                     }
                     else // the evaluated expression is a constant which cannot be assigned to the target type (which is a subclass of the type of the evaluated expression)..
                         throw inconsistency_exception();
